@@ -298,6 +298,12 @@ func runC09(ctx *runCtx) {
 			rep.violate(Violation{Kind: "property", Shape: r.sh + ":" + cc.Peer + ":" + cc.Local, What: r.w, Replay: cc})
 		}
 	}
+	// the timeout goroutine itself against WS.Model.Timeout (Close's bound rests on its two independent slots)
+	{
+		var lines, expect, what []string
+		timeoutDifferential(rep, newRng(ctx.seed, "c09timeout"), 60, &lines, &expect, &what)
+		askAndCompare(ctx, lines, expect, what, "timeout-goroutine-model-vs-impl")
+	}
 	rep.sample(cases[0])
 	rep.sample(cases[len(cases)-1])
 }
